@@ -187,8 +187,10 @@ pub fn shrink_tiles(tiles: &[Tile]) -> Vec<Vec<Tile>> {
 
 pub fn shrink_archive(a: &Archive) -> Vec<Archive> {
     let mut out = Vec::new();
-    for t in shrink_tiles(&a.tiles) {
-        out.push(Archive { tiles: t, ..a.clone() });
+    if a.gen.is_none() {
+        for t in shrink_tiles(&a.tiles) {
+            out.push(Archive { tiles: t, ..a.clone() });
+        }
     }
     if a.meta != Meta::EMPTY {
         out.push(Archive { meta: Meta::EMPTY, ..a.clone() });
